@@ -68,9 +68,8 @@ def scnStep (op impl : String) : StepOut := Id.run do
   let pan := field impl "panic"
   if pan ≠ "" && pan ≠ "0" then
     let ips := natOf (field op "ips")
-    let cls := if pan == "slice_bounds" && cause == "cappx" && ips ≥ 1437 then "close_packet_overflows_buffer" else "-"
     return { model := impl, tags := [s!"cause:{cause}", "panic"],
-             fails := [("no_panic_on_close", cls, s!"the process died closing the connection: {pan} in {field impl "where"} (InitialPacketSize {ips})")] }
+             fails := [("no_panic_on_close", "-", s!"the process died closing the connection: {pan} in {field impl "where"} (InitialPacketSize {ips})")] }
   let dial := field impl "dial"
   let cC := field impl "c.cause"
   let sC := field impl "s.cause"
@@ -98,17 +97,10 @@ def scnStep (op impl : String) : StepOut := Id.run do
           -- window restarts at the first ack-eliciting packet sent after the last packet received (`d1`, from the
           -- endpoint's sent-packet log); `d1c` is the first such packet that carries an ack-eliciting control frame
           let d1 := field impl (sd ++ ".d1")
-          let d1c := field impl (sd ++ ".d1c")
           let sh : Int := 1000000000000
           let ghostStart := if d1 == "-" || d1 == "" then o.lr else intOf d1 + sh
           if o.closedAt > ghostStart + period + o.pto + timerGranularity then
-            -- known finding: a packet whose only ack-eliciting frames are STREAM frames, sent through
-            -- sendPackedCoalescedPacket (PTO probe), does not restart the window; a later control frame
-            -- (keep-alive PING) then restarts it
-            let cls := if d1 ≠ d1c && o.fae ≠ 0 && o.fae > ghostStart && (d1c == "-" || o.fae ≤ intOf d1c + sh) &&
-                          o.closedAt ≤ start + period + o.pto + timerGranularity
-                       then "stream_only_probe_does_not_restart_idle" else "-"
-            fails := fails ++ [("idle_not_late", cls, s!"{sd}: closed {o.closedAt - ghostStart} ns after the first ack-eliciting packet sent since the last packet received, period {period}, PTO {o.pto}")]
+            fails := fails ++ [("idle_not_late", "-", s!"{sd}: closed {o.closedAt - ghostStart} ns after the first ack-eliciting packet sent since the last packet received, period {period}, PTO {o.pto}")]
           -- the period is the negotiated one
           let want := if sd == "c" then negotiatedIdle idleNs sidleNs else negotiatedIdle sidleNs idleNs
           if cause ≠ "hsdead" && cause ≠ "hsstall" && o.it ≠ want then
@@ -144,9 +136,7 @@ def scnStep (op impl : String) : StepOut := Id.run do
         fails := fails ++ [("prompt_return", "-", s!"{sd}: a blocked call returned {field impl (sd ++ ".dt")} ns away from the context cancellation")]
       for (n, e) in entries (field impl (sd ++ ".later")) do
         if e == cz then continue
-        if n == "senddgram" && e == "nil" then
-          fails := fails ++ [("all_same_cause", "senddatagram_after_close_accepted", s!"{sd}: SendDatagram after the close returned nil")]
-        else if n == "rcvdgram" && e == "nil" then continue   -- a datagram received before the close
+        if n == "rcvdgram" && e == "nil" then continue   -- a datagram received before the close
         else if e == "BLOCKED" || e.endsWith "!late" then
           fails := fails ++ [("prompt_return", "-", s!"{sd}: later {n} → {e}")]
         else
